@@ -8,7 +8,7 @@ static const Info I = {
     "stop() from inside a pool job, stop() twice}, optionally the owner waits for the result of every submission before it stops / destroys the pool (then every submission ran, none was cancelled), optionally (>=2 workers) one job keeps its worker until another submission has started (that one must get another worker while one is idle); generated + swept schedules, spurious cv wake-ups. Oracle after the pool is destroyed: per job ran+cancelled == 1, a job submitted before stop() ran on a pool worker (is_current), "
     "cancel is observable (await_canceled_exception in the awaiting coroutine, has_value()==false on the run() future, closure destroyed uncalled), no future/coroutine left pending, no closure leaked, stop()/destructor return (deadlock detector). "
     "Non-trivial = a submission or a job execution overlapped stop(), or a context switch inside a library operation; distinct = hash(decoded program, executed switch trace).",
-    scen_pool::class_names, 4, scen_pool::counter_names, 2};
+    scen_pool::class_names, 4, scen_pool::counter_names, 3};
 const Info &info() { return I; }
 void run_case(Reader &r) { scen_pool::run(r, true); }
 std::string describe(Reader &r) { return scen_pool::describe(scen_pool::decode(r, true)); }
